@@ -335,6 +335,20 @@ def _run(fixed, mobile0, mobile, restr, restr_as):
         except Exception:  # noqa: BLE001
             vf = None
     out["value_via_fortran_order"] = vf
+    # ... and COPIES of the calculator (copy.copy, copy.deepcopy, a pickle round trip — what sending it to a worker
+    # process does): each must give the value the original gives (seed C08-13: derived state rebuilt wrongly on restore)
+    vcopies = {}
+    if len(mobile) == len(mobile0) and len(mobile) > 0:
+        import copy as _copy
+        import pickle as _pickle
+        for how, mk in (("copy", _copy.copy), ("deepcopy", _copy.deepcopy),
+                        ("pickle", lambda c: _pickle.loads(_pickle.dumps(c)))):
+            try:
+                with _quiet():
+                    vcopies[how] = float(mk(calc)(M))
+            except Exception as e:  # noqa: BLE001
+                vcopies[how] = "raises-" + type(e).__name__
+    out["value_via_copies"] = vcopies
     try:
         with _quiet():
             v = calc(M)
@@ -478,6 +492,9 @@ def evaluate(ctx, case):
     vfo = res.get("value_via_fortran_order")
     if vfo is not None and not _rel_ok(vfo, v):
         ctx.oracle_fail(f"chi2:value-depends-on-memory-layout:{rc}", case, dict(detail, fortran_order=vfo))
+    for how, vc in (res.get("value_via_copies") or {}).items():
+        if isinstance(vc, str) or fbits(vc) != fbits(v):
+            ctx.oracle_fail(f"chi2:copy-of-the-calculator-differs:{how}:{rc}", case, dict(detail, via_copy=vc))
     if vb is not None and fbits(vb) != fbits(v):
         ctx.oracle_fail(f"chi2:value-depends-on-array-identity-or-history:{rc}", case,
                         dict(detail, via_reused_buffer=vb))
